@@ -1856,6 +1856,19 @@ func (a *fnAnalysis) call(st *rstate, x *ssa.Call) {
 			if !ok {
 				v, ok = a.e.retOverride[cname]
 			}
+			if !ok && cname == "LunarUtil.GetXunIndex" {
+				// the decade of a pillar: when intervals cannot bound what the function returns (its searches may sit in a
+				// function literal), the complete table of R18.6 over the sixty pillars does — under the same axiom the
+				// interval proof rests on, that the argument is a pillar
+				if rs := a.e.retSum[callee].orBot(); rs.bot || !rs.known() || rs.lo() < 0 || rs.hi() > 5 {
+					if !a.e.c.xunRun {
+						xunTable(a.e.c, newReport("C18"), "R18.6")
+					}
+					if a.e.c.xunOK {
+						v, ok = rangeVal(0, 5).withAx(axBit("AX-SEARCHHIT")|axBit("TABLE-R18.6")), true
+					}
+				}
+			}
 			if !ok && isLocalHelper(callee) {
 				// a helper or function literal that only hands two dates to Subtract: the same reasoning at its call site
 				if rv, av := subtractDelegation(callee); rv != nil {
